@@ -5,9 +5,38 @@ from . import *
 def inp(seed, r, k):
     return ((seed * 7919 + r * 104729 + k * 1299709) % 2001) - 1000
 
+TYPES = [('char', 's', 8), ('i8', 's', 8), ('i16', 's', 16), ('i32', 's', 32), ('i64', 's', 64), ('u8', 'u', 8), ('u16', 'u', 16),
+         ('u32', 'u', 32), ('u64', 'u', 64), ('f32', 'f', 0), ('f64', 'f', 0), ('f128', 'f', 0)]
+
+def typed_expected(n):
+    """every mpi_typeof specialisation: sum / min / max of inputs that tell signed, unsigned and floating point apart"""
+    out = {}
+    for nm, kind, b in TYPES:
+        if kind == 'f':
+            small = [(-(r + 1) if r % 2 else 2 * r + 3) for r in range(n)]            # times 4
+            ext = small
+            tot = sum(small)
+        elif kind == 's':
+            small = [(-(r + 2) if r % 2 else r + 1) for r in range(n)]
+            ext = [(-(1 << (b - 1)) + r if r % 2 else (1 << (b - 1)) - 1 - r) for r in range(n)]
+            tot = sum(small)
+        else:
+            small = [((1 << (b - 1)) + r if r % 2 else r + 1) for r in range(n)]
+            ext = small
+            tot = sum(small) % (1 << b)
+        if nm != 'char':
+            out['ty_sum_' + nm] = str(tot)
+        out['ty_min_' + nm] = str(min(ext))
+        out['ty_max_' + nm] = str(max(ext))
+    return out
+
 def expected(seed, n):
     a = [inp(seed, r, 0) for r in range(n)]
     e = {}
+    te = typed_expected(n)
+    for r in range(n):
+        for k, v in te.items():
+            e[(k, r)] = v
     for r in range(n):
         e[('all_reduce_sum', r)] = e[('sum', r)] = str(sum(a))
         e[('all_reduce_min', r)] = e[('min', r)] = str(min(a))
